@@ -23,6 +23,7 @@ from __future__ import annotations
 
 import collections
 import logging
+import re
 
 logging.disable(logging.CRITICAL)
 
@@ -32,6 +33,7 @@ from mc.engine_harness import Run                                               
 from pylsp.lsp import DiagnosticSeverity                                            # noqa: E402
 from pylsp.workspace import Document, Workspace                                     # noqa: E402
 
+import openpectus.lang.model.ast as past                                            # noqa: E402
 from openpectus.lsp import lsp_analysis                                             # noqa: E402
 from openpectus.lsp.model import get_item_range, get_item_severity                  # noqa: E402
 from openpectus.protocol.models import UodDefinition                                # noqa: E402
@@ -195,6 +197,15 @@ ALPHABET = _alphabet()
 BY_TEXT = {ln.text: i for i, ln in enumerate(ALPHABET)}
 assert len(BY_TEXT) == len(ALPHABET)
 
+# the plain valid line of each instruction (same nesting behaviour); used only for control runs that decide which of several
+# lines failing in the same tick is the root cause
+CANON = {"Watch": "Watch: In1 > 1", "Alarm": "Alarm: In1 > 1", "Base": "Base: s", "Mark": "Mark: a", "Wait": "Wait: 0.2s",
+         "Long": "Long: 2", "SetOut": "SetOut: 1", "Valve": "Valve: Open", "Dose": "Dose: 1 L", "Pause": "Pause: 0.2s",
+         "Hold": "Hold: 0.2s", "Simulate": "Simulate: In1 = 1", "Simulate off": "Simulate off: In1", "Macro": "Macro: M",
+         "Call macro": "Mark: a", "Run counter": "Run counter: 1", "Block": "Block: B", "End block": "End block", "Stop": "Stop",
+         "Inst": "Inst", "Increment run counter": "Increment run counter"}
+assert all(t in BY_TEXT for t in CANON.values())
+
 # reduced alphabet for the 3-line product (thorough): the lines that some analyzer accepts in some variant (only those
 # reach the engine) that carry an argument class of their own, plus one rejected line per rejection mechanism
 SUB_TEXTS = [
@@ -289,8 +300,17 @@ def published(variant: int):
     return _INPUTS[variant]
 
 
+def structure_class(program) -> str | None:
+    """Other failure sources that the real parse tree shows (not asserted, counted): a Watch/Alarm nested inside an Alarm --
+    the alarm body is re-run and the engine trips over the inner interrupt's state ('node.complete was set')."""
+    for node in program.get_all_nodes():
+        if isinstance(node, (past.WatchNode, past.AlarmNode)) and any(isinstance(a, past.AlarmNode) for a in node.parents):
+            return "interrupt-nested-in-alarm"
+    return None
+
+
 def analyse(variant: int, text: str):
-    """-> (error items [(line, id, description)], all items, raised exception or None)"""
+    """-> (error items [(line, id, description)], all items, raised exception or None, structure class)"""
     global _WS
     inp = published(variant)[0]
     if _WS is None:
@@ -299,7 +319,7 @@ def analyse(variant: int, text: str):
     try:
         result = lsp_analysis.analyze(inp, doc)
     except Exception as ex:          # lint() turns this into one generic Error diagnostic: the editor does report an error
-        return [(0, "analysis-raised", f"{type(ex).__name__}: {ex}")], [], ex
+        return [(0, "analysis-raised", f"{type(ex).__name__}: {ex}")], [], ex, None
     errors, items = [], []
     for item in result.items:
         line = get_item_range(item)["start"]["line"]
@@ -307,7 +327,7 @@ def analyse(variant: int, text: str):
         items.append(rec)
         if get_item_severity(item) == DiagnosticSeverity.Error:
             errors.append((line, item.id, item.description))
-    return errors, items, None
+    return errors, items, None, structure_class(result.program)
 
 
 # ---------------------------------------------------------------------------------------------------
@@ -332,9 +352,13 @@ def cause_of(exname: str, msg: str) -> str:
     return "other"
 
 
-def run_engine(variant: int, text: str) -> Run:
-    """Start the method on a fresh real engine and tick HORIZON times.  run.c20_errors records every entry into the error
-    state as (tick, exception type, full description incl. cause chain) -- the harness' own record truncates the message."""
+_KEY = re.compile(r"key='L(\d+)\.")
+
+
+def run_engine(variant: int, text: str, stop_on_error: bool = False) -> Run:
+    """Start the method on a fresh real engine and tick HORIZON times (stop_on_error: only until the first entry into the error
+    state; used for the converse count, where only clean / not clean matters).  run.c20_errors records every entry into the
+    error state as (tick, exception type, description incl. cause chain) -- the harness' own record truncates the message."""
     run = Run(text, totalizer=VARIANTS[variant][1], start=True, observe=("mstate",))
     run.c20_errors = []
     inner = run.engine.set_error_state
@@ -342,9 +366,12 @@ def run_engine(variant: int, text: str) -> Run:
     def set_error_state(exception):
         parts, ex, hops = [], exception, 0
         while ex is not None and hops < 4:
-            parts.append(f"{type(ex).__name__}: {getattr(ex, 'message', None) or ex}")
+            um = getattr(ex, "user_message", None)
+            text = um if um and um != "same" else (getattr(ex, "message", None) or str(ex))
+            parts.append(f"{type(ex).__name__}: {str(text)[:300]}")
             ex, hops = ex.__cause__, hops + 1
-        run.c20_errors.append((run.tickno, type(exception).__name__, " <- ".join(parts)))
+        m = _KEY.search(str(getattr(exception, "message", None) or exception))        # the node the interpreter blames
+        run.c20_errors.append((run.tickno, type(exception).__name__, " <- ".join(parts), int(m.group(1)) if m else None))
         return inner(exception)
     run.engine.set_error_state = set_error_state
     for t in range(HORIZON):
@@ -352,41 +379,64 @@ def run_engine(variant: int, text: str) -> Run:
         if t == X_TICK:
             run.set_input("In1", 2.0)
         run.tick()
+        if stop_on_error and run.c20_errors:
+            break
     return run
 
 
 def failures(variant: int, seq, run: Run):
-    """-> [(failing line class, cause, tick, exception type, message)] for one execution."""
+    """-> [(failing line class, cause, tick, exception type, message)]: the FIRST entry into the error state of one execution
+    (later ones happen in a run that is already broken), attributed to a line of the method."""
     out = []
-    seen_failed: set[str] = set()
-    for (tick, exname, msg) in run.c20_errors:
-        failed = []
-        if 0 <= tick < len(run.obs):
-            failed = [f for f in run.obs[tick]["mstate"]["failed"] if f not in seen_failed]
-            seen_failed.update(failed)
-        idx = None
-        for lid in failed:
-            if lid[1:].isdigit() and int(lid[1:]) < len(seq):
-                idx = int(lid[1:])
-        if idx is None:
-            # no failed line reported: attribute by the command name quoted in the message, else the last started line
+    nlines = len(seq)
+
+    def ids(names):
+        return [int(s[1:]) for s in names if s[1:].isdigit() and int(s[1:]) < nlines]
+    for (tick, exname, msg, node_idx) in run.c20_errors[:1]:
+        ob = run.obs[tick] if 0 <= tick < len(run.obs) else None
+        idx = node_idx if node_idx is not None and node_idx < nlines else None
+        if idx is None and ob is not None and ids(ob["mstate"]["failed"]):
+            idx = max(ids(ob["mstate"]["failed"]))
+        if idx is None:                                        # command manager errors quote the command name ...
             for k, (i, _) in enumerate(seq):
                 if f"'{ALPHABET[i].instr}'" in msg:
                     idx = k
-            if idx is None and 0 <= tick < len(run.obs):
-                st = [int(s[1:]) for s in run.obs[tick]["mstate"]["started"] if s[1:].isdigit() and int(s[1:]) < len(seq)]
-                ex = {int(s[1:]) for s in run.obs[tick]["mstate"]["executed"] if s[1:].isdigit()}
-                cand = [k for k in st if k not in ex] or st
-                idx = max(cand) if cand else None
+        if idx is None:                                        # ... or come out of the UOD callback that ran in this tick
+            names = [n for (t, n, ph, _, _) in run.cmd_events if t == tick and ph == "exec"]
+            for k, (i, _) in enumerate(seq):
+                if ALPHABET[i].instr in names:
+                    idx = k
+        if idx is None and ob is not None:
+            st, ex = ids(ob["mstate"]["started"]), set(ids(ob["mstate"]["executed"]))
+            cand = [k for k in st if k not in ex] or st
+            idx = max(cand) if cand else None
+        cands = ids(ob["mstate"]["failed"]) if ob is not None else []
+        if len(cands) > 1:
+            # several lines failed in this tick and the engine reports only the last one: the root cause is the line whose
+            # replacement by the plain valid line of its instruction makes the whole method run clean (control runs)
+            culprits = []
+            for k in cands:
+                i, lvl = seq[k]
+                canon = CANON.get(ALPHABET[i].instr, "Mark: a")
+                if canon == ALPHABET[i].text:
+                    continue
+                ctl = run_engine(variant, make_text(seq[:k] + ((BY_TEXT[canon], lvl),) + seq[k + 1:]), stop_on_error=True)
+                clean = not ctl.c20_errors
+                ctl.cleanup()
+                if clean:
+                    culprits.append(k)
+            if len(culprits) == 1 and culprits[0] != idx:
+                idx = culprits[0]
+                msg = (f"[lines {['L%d' % k for k in cands]} failed in this tick; replacing L{idx} by "
+                       f"{CANON.get(ALPHABET[seq[idx][0]].instr, 'Mark: a')!r} makes the method run clean; engine reports] " + msg)
         lc = line_class(seq[idx][0], variant) if idx is not None else "?"
         out.append((lc, cause_of(exname, msg), tick, exname, msg))
-    if not run.c20_errors and run.obs:
+    if not run.c20_errors:
         # a line reported failed although the engine never entered the error state
         for ob in run.obs:
-            for lid in ob["mstate"]["failed"]:
-                if lid not in seen_failed and lid[1:].isdigit() and int(lid[1:]) < len(seq):
-                    seen_failed.add(lid)
-                    out.append((line_class(seq[int(lid[1:])][0], variant), "failed-line-without-error-state", ob["n"], "-", "-"))
+            for k in ids(ob["mstate"]["failed"])[:1]:
+                if not out:
+                    out.append((line_class(seq[k][0], variant), "failed-line-without-error-state", ob["n"], "-", "-"))
     return out
 
 
@@ -394,17 +444,20 @@ def evaluate(variant: int, seq, run_rejected: bool = False, trace: bool = False)
     """Analyse one method under one variant and, if accepted (or run_rejected), execute it.
     -> dict(accepted, raised, errors, fails, ticks, executed)"""
     text = make_text(seq)
-    errors, items, raised = analyse(variant, text)
+    errors, items, raised, structure = analyse(variant, text)
     accepted = not errors
-    res = {"accepted": accepted, "raised": raised is not None, "errors": errors, "fails": [], "ticks": 0, "executed": False}
+    res = {"accepted": accepted, "raised": raised is not None, "errors": errors, "fails": [], "ticks": 0, "executed": False,
+           "structure": structure}
     if trace:
         print(f"analysis ({VARIANTS[variant][0]}): {'ACCEPTED (no ERROR item)' if accepted else 'REJECTED'}")
         if raised is not None:
             print(f"  analyze RAISED {type(raised).__name__}: {raised}")
         for (line, iid, typ, desc) in items:
             print(f"  item {typ:7s} {iid:24s} line {line}: {desc}")
+        if structure:
+            print(f"  structure class (failures of such methods are counted, not asserted): {structure}")
     if accepted or run_rejected:
-        run = run_engine(variant, text)
+        run = run_engine(variant, text, stop_on_error=not accepted and not trace)
         try:
             res["fails"] = failures(variant, seq, run)
             res["ticks"] = len(run.obs)
@@ -425,14 +478,14 @@ def evaluate(variant: int, seq, run_rejected: bool = False, trace: bool = False)
 
 def violations_of(variant: int, seq, res):
     out = []
-    if not (res["accepted"] and res["executed"]):
+    if not (res["accepted"] and res["executed"]) or res["structure"]:
         return out
     text = make_text(seq)
     for (lc, cause, tick, exname, msg) in res["fails"]:
-        sig = f"C20:accepted-but-fails:{lc}:{cause}"
+        sig = f"C20:accepted-but-fails:{lc}"
         what = (f"method {text!r} on the UOD {VARIANTS[variant][0]}: semantic analysis with the engine's published definitions "
                 f"reports no ERROR, but the engine enters the error state at tick {tick} on line class {lc} "
-                f"({exname}: {msg})")
+                f"(cause class {cause}; {msg})")
         out.append((sig, what))
     return out
 
@@ -453,6 +506,7 @@ def work(item):
     accepted_classes: dict[str, list[int]] = {}     # line class -> [in accepted+executed methods, of which this line failed]
     converse1: list[str] = []
     conv_ids = collections.Counter()
+    unasserted = collections.Counter()
     viols: dict[str, list] = {}
     for seq in sequences_from(prefix, n, letters):
         if len(seq) < min_len:
@@ -469,8 +523,13 @@ def work(item):
             st["accepted"] += 1
             nontrivial = any(ALPHABET[i].arg for i, _ in seq)
             st["nontrivial"] += 1 if nontrivial else 0
-            st["accepted_failed"] += 1 if res["fails"] else 0
-            failing = {f[0] for f in res["fails"]}
+            st["accepted_failed"] += 1 if res["fails"] and not res["structure"] else 0
+            if res["structure"]:
+                st["accepted_with_other_failure_source"] += 1
+                if res["fails"]:
+                    st["unasserted_failures"] += 1
+                    unasserted[f"{res['structure']}:{res['fails'][0][0]}:{res['fails'][0][1]}"] += 1
+            failing = {f[0] for f in res["fails"]} if not res["structure"] else set()
             for lc in sorted({line_class(i, variant) for i, _ in seq}):
                 c = accepted_classes.setdefault(lc, [0, 0])
                 c[0] += 1
@@ -490,12 +549,12 @@ def work(item):
                         conv_ids[iid] += 1
                     if len(seq) == 1:
                         converse1.append(f"{VARIANTS[variant][0]}: {make_text(seq)!r} ({', '.join(sorted({e[1] for e in res['errors']}))})")
-    return dict(st), accepted_classes, converse1, dict(conv_ids), viols
+    return dict(st), accepted_classes, converse1, dict(conv_ids), viols, dict(unasserted)
 
 
 def _observe(item):
-    st, cl, c1, ci, viols = work(item)
-    return st, cl, c1, ci, {k: v[:2] for k, v in viols.items()}
+    st, cl, c1, ci, viols, un = work(item)
+    return st, cl, c1, ci, {k: v[:2] for k, v in viols.items()}, un
 
 
 def make_items(quick: bool):
@@ -528,9 +587,10 @@ def run(ctx):
     classes: dict[str, list[int]] = {}
     converse1: list[str] = []
     conv_ids = collections.Counter()
+    unasserted = collections.Counter()
     allv = []
     expected = 0
-    for item, (st, cl, c1, ci, viols) in zip(items, results):
+    for item, (st, cl, c1, ci, viols, un) in zip(items, results):
         variant, prefix, n, lkey, _, min_len = item
         letters = range(len(ALPHABET)) if lkey == "full" else SUB
         expected += count_from(prefix, n, letters) - (1 if len(prefix) < min_len else 0)
@@ -541,8 +601,9 @@ def run(ctx):
             c[1] += v[1]
         converse1 += c1
         conv_ids.update(ci)
+        unasserted.update(un)
         for sig, (cnt, what, rp, size) in viols.items():
-            allv.append((size, len(rp["text"]), sig, rp["variant"], cnt, what, rp))
+            allv.append((size, len(rp["text"]), sig, variant, cnt, what, rp))
     allv.sort(key=lambda t: t[:4])
     per_sig: dict[str, int] = {}
     for size, _, sig, _, cnt, what, rp in allv:
@@ -566,6 +627,8 @@ def run(ctx):
     for k in sorted(classes):
         if classes[k][1]:
             ctx.note(f"[C20]   accepted line class {k}: in {classes[k][0]} accepted methods, in {classes[k][1]} of them this line failed on the engine")
+    for k, v in sorted(unasserted.items()):
+        ctx.note(f"[C20]   not asserted (other failure source) {k}: {v} accepted methods failed")
     for s in sorted(converse1):
         ctx.note(f"[C20]   converse (not asserted) rejected but runs clean: {s}")
     samples = [replay_payload(1, ((BY_TEXT["Base: L"], 0), (BY_TEXT["0.0005 Mark: t"], 0))),
@@ -582,6 +645,8 @@ def run(ctx):
         samples=samples, exhaustive=exhaustive,
         accepted=tot["accepted"], rejected=tot["rejected"], accepted_and_failed=tot["accepted_failed"],
         analysis_raised=tot["analysis_raised"], engine_tick_exceptions=tot["tick_exceptions"],
+        accepted_with_other_failure_source=tot["accepted_with_other_failure_source"], unasserted_failures=tot["unasserted_failures"],
+        unasserted_failures_by_class=dict(sorted(unasserted.items())),
         converse_rejected_executed=tot["rejected_executed"], converse_rejected_but_runs_clean=tot["rejected_but_runs_clean"],
         converse_by_analyzer_item=dict(sorted(conv_ids.items())), converse_single_line_methods=sorted(converse1),
         converse_note="counted for methods of <= 2 lines only; not asserted (the statement is one-directional)",
@@ -603,6 +668,9 @@ def run(ctx):
         "'fails' = Engine.set_error_state is entered (or a line is reported failed)",
         "the alphabet has no failure source other than names, arguments and units: harness UOD callbacks do not raise for in-language "
         "arguments, the raising command Boom is excluded, nesting is well-formed; the message-based cause class only labels the signature",
+        "only the first entry into the error state of an execution is judged (later ones happen in an already broken run)",
+        "methods in which the real parser nests a Watch/Alarm inside an Alarm have another failure source (the re-run alarm body "
+        "trips over the inner interrupt: 'node.complete was set'); their failures are counted (unasserted_failures), not asserted",
         "Engine.tick exceptions are C13's subject and only counted here",
     ]
 
